@@ -32,7 +32,7 @@ pub struct Case {
     pub cfg: Cfg,
 }
 
-pub const POSITIONS: [&str; 8] = ["struct", "field", "unit-enum", "unit-variant", "tagged-enum", "tagged-variant", "variant-field", "alias"];
+pub const POSITIONS: [&str; 10] = ["struct", "field", "unit-enum", "unit-variant", "tagged-enum", "tagged-variant", "variant-field", "alias", "inline-newtype", "redacted-struct"];
 
 /// terminator-class hazards: at most one kind per doc string (so that signatures name one cause)
 const HAZARDS: [(&str, &str); 5] = [("newline", "\n"), ("block-end", "*/"), ("triple-dquote", "\"\"\""), ("backslash", "\\"), ("trailing-backslash", "\\")];
@@ -162,7 +162,15 @@ fn build_items(case: &Case) -> (Vec<Item>, Vec<(usize, usize, DocSpec)>) {
     te.kind = Kind::Enum { variants: vec![tv, sv, Variant::unit("Nothing")], rename_all: None, tag: Some("type".into()), content: Some("content".into()) };
     let mut al = Item::new("DocAlias", Kind::Alias { ty: Ty::Vec(Box::new(Ty::Prim(Prim::String))) });
     al.docs = mk(7, &mut ids);
-    (vec![s, ue, te, al], ids)
+    // decorated forms take other code paths in some back ends (Kotlin value class, redacted toString)
+    let mut inl = Item::new("DocInline", Kind::Struct { shape: Shape::Newtype(Ty::Prim(Prim::String)), rename_all: None });
+    inl.decor.kotlin_inline = true;
+    inl.docs = mk(8, &mut ids);
+    let mut red = Item::new("DocRedacted", Kind::Struct { shape: Shape::Named(vec![Field::new("secret", Ty::Prim(Prim::String))]), rename_all: None });
+    red.decor.redacted = true;
+    red.decor.swift = vec!["Equatable".into()];
+    red.docs = mk(9, &mut ids);
+    (vec![s, ue, te, al, inl, red], ids)
 }
 
 /// byte spans of comment / docstring tokens in the generated text
@@ -259,7 +267,7 @@ impl SubCheck for C15 {
     }
     fn strategy(&self, _tier: Tier) -> BoxedStrategy<Case> {
         let per_pos = prop_oneof![2 => Just(vec![]), 5 => proptest::collection::vec(doc_strategy(), 1..=1), 2 => proptest::collection::vec(doc_strategy(), 2..=3)];
-        (proptest::collection::vec(per_pos, 8..=8), cfg_strategy()).prop_map(|(docs, cfg)| Case { docs, cfg }).boxed()
+        (proptest::collection::vec(per_pos, 10..=10), cfg_strategy()).prop_map(|(docs, cfg)| Case { docs, cfg }).boxed()
     }
     fn eval(&self, run: &Run, case: &Case, w: &mut Worker, counting: bool) -> Vec<Violation> {
         let (items, ids) = build_items(case);
@@ -278,7 +286,7 @@ impl SubCheck for C15 {
         let mut isolated_ok = true;
         for (pos, list) in case.docs.iter().enumerate() {
             for d in list {
-                let mut single = Case { docs: vec![vec![]; 8], cfg: case.cfg.clone() };
+                let mut single = Case { docs: vec![vec![]; 10], cfg: case.cfg.clone() };
                 single.docs[pos] = vec![d.clone()];
                 let v = eval_program(run, &single, w, counting, false);
                 if !v.is_empty() {
